@@ -904,6 +904,19 @@ class Interp(object):
             return True
         raise Unmodelled('match pattern %s' % type(pat).__name__)
 
+    def _wrapped_by_package_decorator(self, fv):
+        """A module-level function or a method whose decorator is a function of the package (not a registration, not a builtin
+        descriptor): what the name is bound to is what that decorator returns."""
+        for d in fv.node.decorator_list:
+            text = src(d)
+            if 'register' in text or text in ('staticmethod', 'classmethod', 'property') or 'singledispatch' in text:
+                continue
+            target = d.func if isinstance(d, ast.Call) else d
+            r = self.model.resolve_attr_chain(fv.module, target) if isinstance(target, (ast.Name, ast.Attribute)) else None
+            if r is not None and r[0] == 'func':
+                return True
+        return False
+
     def decorated(self, fv, node, fr):
         """Apply the decorators of ``node`` (innermost first) to the function value; registration decorators return it unchanged."""
         for d in reversed(node.decorator_list):
@@ -935,12 +948,15 @@ class Interp(object):
                 dv = self.module_value(fv.module, fv.node.name)
                 if isinstance(dv, DispatchV):
                     return self.call_dispatch(dv, args, kwargs)
-            if fv.attrs.get('<as-registered>') and isinstance(fv.node, ast.FunctionDef) and fv.node.decorator_list:
-                # the function as the registry holds it: with its decorators applied
+            if isinstance(fv.node, ast.FunctionDef) and fv.node.decorator_list and not fv.attrs.get('<raw>') and \
+                    (fv.attrs.get('<as-registered>') or (fv.closure is None and self._wrapped_by_package_decorator(fv))):
+                # the function as the registry / the class holds it: with its decorators applied
                 cache = self.__dict__.setdefault('_decorated', {})
                 kk = (fv.module.name, fv.node.lineno)
                 if kk not in cache:
-                    cache[kk] = self.decorated(Func(fv.module, fv.node, fv.closure, fv.name), fv.node, Frame({}, None, fv.module))
+                    inner = Func(fv.module, fv.node, fv.closure, fv.name)
+                    inner.attrs['<raw>'] = True
+                    cache[kk] = self.decorated(inner, fv.node, Frame({}, None, fv.module))
                 return self.call(cache[kk], args, kwargs)
             return self.call_func(fv, args, kwargs)
         if isinstance(fv, DispatchV):
@@ -1157,6 +1173,16 @@ class Interp(object):
 
     def instantiate(self, cv, args, kwargs=None):
         kwargs = kwargs or {}
+        if cv.module is not None and isinstance(cv.node, ast.ClassDef):
+            lm_new = self.model.lookup_method(cv.module, cv.node, '__new__')
+            if lm_new is not None:
+                # the class builds its instances itself (defaults for a namedtuple subclass, a singleton, ...)
+                made = self.call_func(Func(lm_new[0], lm_new[2]), [cv] + list(args), dict(kwargs))
+                if isinstance(made, Obj) and made.cls is cv:
+                    lm_i = self.model.lookup_method(cv.module, cv.node, '__init__')
+                    if lm_i:
+                        self.call_func(Func(lm_i[0], lm_i[2]), [made] + list(args), dict(kwargs))
+                return made
         obj = Obj(cv, {})
         rec = self._record_class(cv)
         if rec:
@@ -1259,7 +1285,7 @@ class Interp(object):
             cache[kk] = out
         return cache[kk]
 
-    def _record_class(self, cv):
+    def _record_class(self, cv, allow_new=False):
         node = cv.node
         if cv.module is None or not isinstance(node, ast.ClassDef):
             return None
@@ -1278,7 +1304,7 @@ class Interp(object):
                 if isinstance(names, str):
                     names = names.replace(',', ' ').split()
                 if names and all(isinstance(x, str) for x in names) and \
-                        not any(isinstance(n_, ast.FunctionDef) and n_.name in ('__new__', '__init__') for n_ in node.body):
+                        (allow_new or not any(isinstance(n_, ast.FunctionDef) and n_.name in ('__new__', '__init__') for n_ in node.body)):
                     dflts = {}
                     for kw_ in b.keywords:
                         if kw_.arg == 'defaults':
@@ -2155,7 +2181,20 @@ class Interp(object):
                 return absmodels.dt_record_replace(self, base, kwargs)
             if e.func.attr == '__new__' and args and isinstance(args[0], ClassV) and args[0].module is not None and \
                     (isinstance(base, (ClassV, SuperV)) or (isinstance(base, Builtin) and base.name == 'object')) and \
-                    self.model.lookup_method(args[0].module, args[0].node, '__new__') is None:
+                    (isinstance(base, SuperV) or self.model.lookup_method(args[0].module, args[0].node, '__new__') is None):
+                rec_ = self._record_class(args[0], allow_new=True) if isinstance(base, SuperV) else None
+                if rec_ and rec_[0] == 'namedtuple':
+                    # super().__new__(cls, *values) of a namedtuple subclass: the record with these values
+                    names_ = [f_ for f_, _ in rec_[1]]
+                    vals_ = list(args[1:])
+                    if len(vals_) + len(kwargs) == len(names_) and all(k_ in names_[len(vals_):] for k_ in kwargs):
+                        o_ = Obj(args[0], dict(zip(names_, vals_)))
+                        for k_, v_ in kwargs.items():
+                            o_.attrs[k_] = v_
+                        o_.attrs = dict((f_, o_.attrs[f_]) for f_ in names_)
+                        o_.nt_fields = names_
+                        return o_
+                    raise Unmodelled('namedtuple __new__ with defaults left to the base class')
                 return Obj(args[0], {})     # an instance on which no __init__ has run
             if isinstance(base, (ModuleV, Obj, ClassV, TypeV, Builtin, SuperV, DispatchV)) or (isinstance(base, Func) and e.func.attr in base.attrs):
                 fv = self.getattr(base, e.func.attr, e.func)
